@@ -152,8 +152,8 @@ fn catalogue_cases(tier: Tier) -> Vec<Scenario> {
 
 fn n_sampled_chunks(tier: Tier) -> u64 {
     match tier {
-        Tier::Quick => 250,
-        Tier::Thorough => 12_000,
+        Tier::Quick => 4_000,
+        Tier::Thorough => 40_000,
     }
 }
 
